@@ -27,7 +27,10 @@
                       formula's code and precedents
      allcells W s     every cell (non-range node) of W is built in s
      post_ok W o      Evaluate n / Build n: n < wb_n; SetValue a v: a is an input
-                      cell, v an Excel scalar (C01.scalar_exact) *)
+                      cell, v an Excel scalar (C01.scalar_exact)
+     region M n       n is built, or n is a range all of whose members are built
+     post_in M o      Evaluate n / Build n: region M n; SetValue a v: a is a saved
+                      input cell, v an Excel scalar *)
 From Coq Require Import List Permutation.
 From PV Require Import Lib.Py Model.Graph Model.Persist.
 From PV Require Import Proofs.C01Base Proofs.C01Inv Proofs.C01 Proofs.C03Graph Proofs.C03.
@@ -47,8 +50,8 @@ Print Assumptions C03_abs_partial.
    post-load history of evaluate / set_value / build exactly as the original
    object does — both traces are the from-scratch values under the inputs
    written so far (C01's coherence theorem on both sides).  Missing for the full
-   statement: models saved before every cell was built (a history that stays
-   inside the saved cells), the side conditions no_eq_text / code_nonblank and
+   statement: models saved before every cell was built (next theorem), the
+   side conditions no_eq_text / code_nonblank and
    those of C01 (stored_ok; writes to input cells only), iterative models. *)
 Theorem C03_equiv_partial : forall G cdeps csem rsem M,
   pm_ok G cdeps M -> wf (pm_wb M) -> code_nonblank csem rsem ->
@@ -63,6 +66,26 @@ Theorem C03_equiv_partial : forall G cdeps csem rsem M,
          = run_spec (pm_wb M) (pm_sem csem rsem M) (st_cache (pm_state M)) h.
 Proof. exact equiv_roundtrip. Qed.
 Print Assumptions C03_equiv_partial.
+
+(* PARTIAL (C03_equiv, models saved before every cell was built): every history
+   that stays inside the saved part (region: the built nodes and the ranges over
+   built cells; writes to saved input cells) and is admissible for the original
+   in C01's sense (ok_history: the build-order condition late_ok for workbooks
+   with stored results) is answered by the loaded model as by the original.
+   Missing: as above; a history that leaves the saved part is outside the
+   property (the original reads the workbook, the loaded model sees a blank). *)
+Theorem C03_equiv_region_partial : forall G cdeps csem rsem M,
+  pm_ok G cdeps M -> wf (pm_wb M) -> code_nonblank csem rsem ->
+  Inv (pm_wb M) (pm_sem csem rsem M) (pm_state M) -> no_eq_text M ->
+  stored_ok (pm_wb M) (pm_sem csem rsem M) ->
+  inputs_exact (pm_wb M) (st_cache (pm_state M)) ->
+  exists M', roundtrip_pkl G cdeps csem rsem M = Ok M' /\
+    forall h, Forall (post_in M) h ->
+      ok_history (pm_wb M) (pm_sem csem rsem M) (ok_op (pm_wb M)) (pm_state M) h ->
+      snd (run (pm_wb M') (pm_sem csem rsem M') (pm_state M') h)
+      = snd (run (pm_wb M) (pm_sem csem rsem M) (pm_state M) h).
+Proof. exact equiv_region_roundtrip. Qed.
+Print Assumptions C03_equiv_region_partial.
 
 (* the text formats: with a scalar printer/parser pair that round-trips (the
    trusted oracle about ruamel.yaml / json, policed by the harness's content
